@@ -194,8 +194,9 @@ def model_check(spec, cfg_text, name, workers=16, simulate=None, timeout=1800, h
     mv = re.search(r'Error: Invariant (\S+) is violated', out)
     if mv:
         violated = mv.group(1)
-    elif 'Error: Temporal properties were violated' in out:
-        violated = 'temporal'
+    elif 'Error: Temporal properties were violated' in out or re.search(r'Error: Temporal property \S+ was violated', out):
+        mt = re.search(r'Error: Temporal property (\S+) was violated', out)
+        violated = 'temporal:' + mt.group(1) if mt else 'temporal'
     elif 'Error: Action property' in out:
         violated = 'action-property'
     elif 'Error: Deadlock reached' in out:
